@@ -596,6 +596,10 @@ class Executor:
             if self.feasible(s_ok):
                 yield s_ok, self.typed_read(h.c["sa"][base.t][ii], ety, s_ok)
             return
+        if self.pure_depth:
+            return_t = z3.Function("subscript_undef", V, V, V)(base.t, to_v(idx, s))  # spec-level: unspecified, never reached at run time
+            yield s, Val(return_t, ANY)
+            return
         raise Unsupported(f"subscript on type {ty}")
 
     def typed_read(self, t, ty, s):
@@ -727,7 +731,7 @@ class Executor:
             lo = z3.And(0 <= j, j < t)
             pats0 = [elem_terms[0]] if elem_terms and elem_terms[0] is not None else None
             if kind == "all":
-                q = z3.ForAll([j], z3.Implies(z3.And(lo, g_rest), body), patterns=pats0) if pats0 else z3.ForAll([j], z3.Implies(z3.And(lo, g_rest), body))
+                q = smt.forall([j], z3.Implies(z3.And(lo, g_rest), body), patterns=pats0) if pats0 else z3.ForAll([j], z3.Implies(z3.And(lo, g_rest), body))
                 return z3.And(q, z3.Implies(t >= 0, at_t))
             q = z3.Exists([j], z3.And(lo, g_rest, body))
             return z3.Or(q, z3.And(t >= 0, at_t))
@@ -735,7 +739,7 @@ class Executor:
         if len(binders) == 1 and elem_terms and elem_terms[0] is not None:
             pats = [elem_terms[0]]
         if kind == "all":
-            return z3.ForAll(binders, z3.Implies(g, body), patterns=pats) if pats else z3.ForAll(binders, z3.Implies(g, body))
+            return smt.forall(binders, z3.Implies(g, body), patterns=pats) if pats else z3.ForAll(binders, z3.Implies(g, body))
         return z3.Exists(binders, z3.And(g, body))
 
     def ev_ListComp(self, e, st):
@@ -782,9 +786,9 @@ class Executor:
         st.heap = h.with_comp("sl", z3.Store(h.c["sl"], r.t, n)).with_comp("sa", z3.Store(h.c["sa"], r.t, arr))
         st.assume(
             n >= 0, n <= view.len,
-            z3.ForAll([a], z3.Implies(z3.And(0 <= a, a < n), z3.And(0 <= idx(a), idx(a) < view.len, c_at(idx(a)), inv(idx(a)) == a)), patterns=[idx(a)]),
-            z3.ForAll([a, b], z3.Implies(z3.And(0 <= a, a < b, b < n), idx(a) < idx(b)), patterns=[z3.MultiPattern(idx(a), idx(b))]),
-            z3.ForAll([a], z3.Implies(z3.And(0 <= a, a < view.len, c_at(a)), z3.And(0 <= inv(a), inv(a) < n, idx(inv(a)) == a)), patterns=[inv(a)]),
+            smt.forall([a], z3.Implies(z3.And(0 <= a, a < n), z3.And(0 <= idx(a), idx(a) < view.len, c_at(idx(a)), inv(idx(a)) == a)), patterns=[idx(a)]),
+            smt.forall([a, b], z3.Implies(z3.And(0 <= a, a < b, b < n), idx(a) < idx(b)), patterns=[z3.MultiPattern(idx(a), idx(b))]),
+            smt.forall([a], z3.Implies(z3.And(0 <= a, a < view.len, c_at(a)), z3.And(0 <= inv(a), inv(a) < n, idx(inv(a)) == a)), patterns=[inv(a)]),
         )
         return r
 
@@ -850,9 +854,9 @@ class Executor:
         # value of key k is the value computed at SOME generating index (last-wins not modelled: under-specified)
         w = wit(k)
         sub = lambda x: z3.substitute(x, (j, w))
-        st.assume(z3.ForAll([k], z3.Implies(member[k], z3.And(sub(gd), sub(k_t) == k, valarr[k] == sub(v_t))), patterns=[valarr[k]]))
+        st.assume(smt.forall([k], z3.Implies(member[k], z3.And(sub(gd), sub(k_t) == k, valarr[k] == sub(v_t))), patterns=[valarr[k]]))
         # when keys are injective in the index the witness is the unique generator
-        st.assume(z3.ForAll([j], z3.Implies(gd, z3.And(member[k_t], z3.Implies(self.key_injective(k_t, j, gd), valarr[k_t] == v_t))), patterns=[k_t] if not z3.is_const(k_t) else None) if True else None)
+        st.assume(smt.forall([j], z3.Implies(gd, z3.And(member[k_t], z3.Implies(self.key_injective(k_t, j, gd), valarr[k_t] == v_t))), patterns=[k_t] if not z3.is_const(k_t) else None) if True else None)
         st.assume(*smt.heap_wellformed_ref(st.heap, r.t, "d"))
         self.assumptions.add("dict comprehension: value of a key generated twice is under-specified (any generating index)")
         yield st, r
